@@ -1,14 +1,18 @@
+pub mod c01;
 pub mod c02;
 pub mod c03;
+pub mod c04;
 pub mod c06;
 pub mod c07;
 pub mod c09;
+pub mod c10;
 pub mod c11;
 pub mod c12;
 pub mod c13;
 pub mod c15;
 pub mod c16;
 pub mod c17;
+pub mod stream;
 
 use crate::evidence::{Report, Tier};
 
@@ -17,11 +21,14 @@ pub type ReplayFn = fn(&serde_json::Value) -> Result<(), String>;
 
 pub fn lookup(id: &str) -> Option<(CheckFn, ReplayFn)> {
     match id {
+        "C01" => Some((c01::run, c01::replay)),
         "C02" => Some((c02::run, c02::replay)),
         "C03" => Some((c03::run, c03::replay)),
+        "C04" => Some((c04::run, c04::replay)),
         "C06" => Some((c06::run, c06::replay)),
         "C07" => Some((c07::run, c07::replay)),
         "C09" => Some((c09::run, c09::replay)),
+        "C10" => Some((c10::run, c10::replay)),
         "C11" => Some((c11::run, c11::replay)),
         "C12" => Some((c12::run, c12::replay)),
         "C13" => Some((c13::run, c13::replay)),
